@@ -43,14 +43,14 @@ func (Engine) Name() string { return "wire" }
 func (Engine) Runs(prop, tier string) int {
 	if prop == "C04" {
 		if tier == "thorough" {
-			return 6000
+			return 20000
 		}
 		return 700
 	}
 	if tier == "thorough" {
-		return 60000
+		return 200000
 	}
-	return 5000
+	return 10000
 }
 func (Engine) Real() []string {
 	return []string{"MarshalBinary/UnmarshalBinary/MarshalTo/UnmarshalFrom of every point and scalar type of all group instances", "group/internal/marshalling", "util/encoding (hex helpers)", "suite.Read/suite.Write (fixbuf)",
@@ -673,6 +673,13 @@ func runC04(t *core.Tape, tier string, info *core.RunInfo) *core.Violation {
 	}
 	for k := 0; k < 6; k++ {
 		cases = append(cases, t.Bytes("garbage", L))
+	}
+	if v.isPoint() {
+		nc := nonCanonical(gr, enc)
+		cases = append(cases, nc...)
+		if len(nc) > 0 {
+			info.Faults["coordinate-plus-modulus"] += len(nc)
+		}
 	}
 	// an encoding of the same length from another group
 	for _, og := range groupList() {
